@@ -7,6 +7,7 @@ require (
 	github.com/nuetzliches/hookaido v0.0.0
 	google.golang.org/grpc v1.79.1
 	google.golang.org/protobuf v1.36.11
+	modernc.org/sqlite v1.45.0
 )
 
 require (
@@ -43,7 +44,6 @@ require (
 	modernc.org/libc v1.67.6 // indirect
 	modernc.org/mathutil v1.7.1 // indirect
 	modernc.org/memory v1.11.0 // indirect
-	modernc.org/sqlite v1.45.0 // indirect
 )
 
 replace github.com/nuetzliches/hookaido => /repo
